@@ -20,11 +20,15 @@ those sources (`Generated/DataSetShape.lean`).
 namespace Nix.Nd
 open Nix Nix.NdGen
 
-/-- `H5DataSet.write_data(data, slc)`: `slc is None` means the whole dataset (`dataset[:] = data`) -/
+/-- `H5DataSet.write_data(data, slc)`: data without elements for a selection with elements is refused
+(ValueError, `/repo` 61e9077: h5py would "broadcast" the empty buffer); `slc is None` means the whole dataset
+(`dataset[:] = data`) -/
 def writeData (A : DArr) (data : Arr) (slc : IndexArg) : Except IoErr DArr :=
-  match slc with
-  | .none => h5SetItem A fullSlice data
-  | s => h5SetItem A s data
+  if (arrIsEmpty data && optTruthy (h5SelectedCount A slc)) then .error (.err .valueError)
+  else
+    match slc with
+    | .none => h5SetItem A fullSlice data
+    | s => h5SetItem A s data
 
 /-- `DataArray._read_data(sl)` without calibration: `sl is None` means everything; h5py's ValueError / TypeError
 for a bad index become IndexError; a 0-d result comes back with shape (1,) -/
